@@ -13,7 +13,6 @@ import re
 import signal
 
 from harness.engine import tlc as T
-from harness.engine.core import chunks
 
 SPEC = os.path.join(T.SPECS, "Dialogue")
 NOPAT = {"ci": True, "alts": ["y"], "whole": False, "dflt": True}
@@ -522,12 +521,15 @@ def run(ctx):
             if nontrivial(ev):
                 ctx.nontriv(("r", k, j))
     ctx.sample({"random_session": cases[-1]})
-    for pt, pc in zip(chunks(traces, 10000), chunks(cases, 10000)):
-        ctx.validate(SPEC, "DialogueTrace", "DialogueTrace.cfg", pt, cases=pc, name="recorded-dialogues")
+    ctx.validate(SPEC, "DialogueTrace", "DialogueTrace.cfg", traces, cases=cases, name="recorded-dialogues")
 
 
 def replay(ctx, path):
     d = json.load(open(path))
+    if d.get("kind") == "model":  # a P-invariant / Termination violated inside the model: run that configuration again
+        ctx.model(SPEC, d["module"], d["cfg"], name="replay-model", workers=8)
+        ctx.count()
+        return
     c = d["case"]
     tr = run_case(c)
     ctx.count(len(tr))
